@@ -2,7 +2,8 @@
 # usage: tools_verify_seed.sh <dir containing patch.diff and demo.py> [baseline junit xml]
 # fresh scratch worktree of /repo HEAD: demo on the clean tree (expect 0), apply the patch, demo again (expect 1), full suite on the
 # patched tree compared with the failing set of the clean tree. Prints one JSON line. The worktree is removed afterwards.
-D=$(realpath "$1"); BASE=${2:-/tmp/r6/base/junit.xml}
+D=$(realpath "$1"); BASE=${2:-/tmp/verify_seed_baseline.junit.xml}
+if [ ! -f "$BASE" ]; then (cd /repo && OMP_NUM_THREADS=2 /venv/bin/python -m pytest -q -p no:cacheprovider --timeout=900 --continue-on-collection-errors --junitxml="$BASE" >/dev/null 2>&1); fi
 WT=$(mktemp -d /tmp/vs.XXXXXX)
 git -C /repo worktree add -q --detach "$WT" HEAD
 trap 'git -C /repo worktree remove --force "$WT" >/dev/null 2>&1; rm -rf "$WT.junit.xml" "$WT.log"' EXIT
